@@ -91,6 +91,10 @@ impl Event {
                     event_name: event_name.to_string(),
                     ..Default::default()
                 };
+                // The default values (`any`, empty payload/metadata) can also be given explicitly,
+                // so they cannot tell whether the option was already seen.
+                let (mut seen_expected_version, mut seen_payload, mut seen_metadata) =
+                    (false, false, false);
 
                 for arg in args {
                     match arg {
@@ -104,12 +108,13 @@ impl Event {
                             cmd.event_id = Some(event_id);
                         }
                         OptionalArg::ExpectedVersion(expected_version) => {
-                            if !matches!(cmd.expected_version, ExpectedVersion::Any) {
+                            if seen_expected_version {
                                 return Err(easy::Error::message_format(
                                     "expected version already specified",
                                 ));
                             }
 
+                            seen_expected_version = true;
                             cmd.expected_version = expected_version;
                         }
                         OptionalArg::Timestamp(timestamp) => {
@@ -122,21 +127,23 @@ impl Event {
                             cmd.timestamp = Some(timestamp);
                         }
                         OptionalArg::Payload(payload) => {
-                            if !cmd.payload.is_empty() {
+                            if seen_payload {
                                 return Err(easy::Error::message_format(
                                     "payload already specified",
                                 ));
                             }
 
+                            seen_payload = true;
                             cmd.payload = payload.to_vec();
                         }
                         OptionalArg::Metadata(metadata) => {
-                            if !cmd.metadata.is_empty() {
+                            if seen_metadata {
                                 return Err(easy::Error::message_format(
                                     "metadata already specified",
                                 ));
                             }
 
+                            seen_metadata = true;
                             cmd.metadata = metadata.to_vec();
                         }
                     }
